@@ -481,7 +481,10 @@ class Gen:
                         spec = sim.ds_spec[like]
                         m = int(r.integers(1, 9))
                         self.last_changer = j
-                        return {"op": "update", "c": j, "like": like, "values": values_to_json(self.values(m, len(spec["columns"]), spec.get("dtype", "float64")))}
+                        st = {"op": "update", "c": j, "like": like, "values": values_to_json(self.values(m, len(spec["columns"]), spec.get("dtype", "float64")))}
+                        if r.random() < 0.25:
+                            st["overlap"] = int(r.integers(1, 6))
+                        return st
                 else:
                     return {"op": nxt, "c": j, "d": self.pick_dataset(sim, cl, False)}
         # who moves: prefer a client sharing state with the last state changer
@@ -550,6 +553,9 @@ class Gen:
             spec = sim.ds_spec[like]
             m = int(r.integers(1, 9))
             st = {"op": op, "c": i, "like": like, "values": values_to_json(self.values(m, len(spec["columns"]), spec.get("dtype", "float64")))}
+            if fitted and r.random() < 0.25:
+                # a sliding window / revised values: the chunk re-sends the last few labels
+                st["overlap"] = int(r.integers(1, 6))
         elif st is None:
             st = {"op": op, "c": i, "d": self.pick_dataset(sim, cl, "bad_data" in self.cfg["faults"])}
         # faults inside calls
